@@ -31,6 +31,61 @@ def mk(fx, np, t, codes, shape=None, dirty=False, **cfg):
     return fx.Fxp(a, bool(s), w, f, raw=True, **cfg)
 
 
+HIST = ['inplace', 'view', 'resign', 'elementwise']
+
+
+def warm_up(fx, np, X):
+    """typical uses of an object, so that anything the library may cache about it is cached (results are discarded)"""
+    for f in (lambda: X.get_val(), lambda: X + X, lambda: X * X, lambda: X - X, lambda: X >> 2, lambda: X << 1, lambda: X < X, lambda: X == 0,
+              lambda: X.astype(int), lambda: X.astype(float), lambda: X.bin(), lambda: X.hex(), lambda: np.sum(X), lambda: ~X, lambda: X.raw(), lambda: X.uraw()):
+        try:
+            f()
+        except Exception:
+            pass
+
+
+def mk_hist(fx, np, t, codes, shape=None, mode='inplace', **cfg):
+    """an Fxp of format t holding exactly `codes`, but with a HISTORY: it first held other codes (possibly under the other
+    signedness), was used, and then received the intended codes by writes that do NOT rebind its value buffer:
+      inplace     - set_val(..., index=slice) on the object itself
+      view        - the same write made through a slice view of the object
+      elementwise - x[i] = code one element at a time (raw codes through set_val(index=i))
+      resign      - created with the opposite signedness, resized by sign only, used, then written in place"""
+    s, w, f = t
+    scalar = isinstance(codes, int)
+    lo, hi = ((-(1 << (w - 1)), (1 << (w - 1)) - 1) if s else (0, (1 << w) - 1))
+    clist = [codes] if scalar else [int(c) for c in codes]
+    other = [hi - (c - lo) for c in clist]                       # mirrored codes: in range, generally different
+    dt = object if w >= 63 else (np.int64 if s else np.uint64)
+
+    def arr(cs):
+        a = np.array(cs, dtype=dt)
+        if scalar:
+            return a.reshape(())
+        return a.reshape(shape) if shape is not None else a
+    if mode == 'resign' and w >= 2 and w < 63:
+        X = fx.Fxp(arr([0] * len(clist)), bool(not s), w, f, raw=True, **cfg)
+        X.resize(signed=bool(s))
+        X.set_val(arr(other), raw=True)
+    else:
+        X = fx.Fxp(arr(other), bool(s), w, f, raw=True, **cfg)
+    warm_up(fx, np, X)
+    new = arr(clist)
+    if scalar:
+        X.set_val(new, raw=True, index=())
+    elif mode == 'view':
+        V = X[...] if shape is not None else X[0:len(clist)]
+        V.set_val(new, raw=True, index=Ellipsis)
+    elif mode == 'elementwise':
+        flat = new.ravel()
+        for i in range(flat.size):
+            X.set_val(flat[i], raw=True, index=np.unravel_index(i, new.shape))
+    else:
+        X.set_val(new, raw=True, index=Ellipsis)
+    X.reset()
+    return X
+
+
 def fmt_of(z):
     return {'s': bool(z.signed), 'w': int(z.n_word), 'f': int(z.n_frac)}
 
@@ -73,8 +128,13 @@ def observe_arith(fx, np, props, op, tx, ty, cxs, cys, route='operator', sizing=
     if extra:
         base.update(extra)
     try:
-        X = mk(fx, np, tx, cxs[0] if scalar else cxs, shape, dirty=dirty, rounding=xm[0], overflow=xm[1])
-        Y = mk(fx, np, ty, cys[0] if scalar else cys, shape, dirty=dirty, rounding=ym[0], overflow=ym[1])
+        if isinstance(dirty, str):          # operands with an in-place history (see mk_hist)
+            X = mk_hist(fx, np, tx, cxs[0] if scalar else cxs, shape, mode=dirty, rounding=xm[0], overflow=xm[1])
+            Y = mk_hist(fx, np, ty, cys[0] if scalar else cys, shape, mode=dirty, rounding=ym[0], overflow=ym[1])
+            base['route'] = route + '/hist-' + dirty
+        else:
+            X = mk(fx, np, tx, cxs[0] if scalar else cxs, shape, dirty=dirty, rounding=xm[0], overflow=xm[1])
+            Y = mk(fx, np, ty, cys[0] if scalar else cys, shape, dirty=dirty, rounding=ym[0], overflow=ym[1])
         base['opi'] = bool(X.status['inaccuracy'] or Y.status['inaccuracy'])
         kw = {}
         T = None
